@@ -7,6 +7,7 @@ mod flags;
 mod hball;
 mod probe;
 mod split;
+mod scc;
 mod util;
 mod visit;
 
@@ -61,6 +62,7 @@ fn main() {
         "cli" => cli::run(seed, count, maxn, &mut out),
         "visit" => visit::run(seed, count, maxn, &mode, &mut out),
         "split" => split::run(seed, count, maxn, &mode, &mut out),
+        "scc" => scc::run(seed, count, maxn, &mode, &mut out),
         other => {
             eprintln!("unknown channel {other}");
             std::process::exit(2);
